@@ -29,6 +29,8 @@ def run(ck, tier):
     _infl.run(ck, F, 'C07')
     from . import mustpass as _mp
     _mp.run(ck, F, 'C07')
+    from . import accum as _acc2
+    _acc2.run2(ck, F, 'C07')
     from . import c07x
     c07x.run(ck, F)
     ck.rule("C07.bloom-insert", "each value encoder inserts the values it encodes into the bloom filter whenever one is present: the insert exists and is "
